@@ -232,6 +232,80 @@ func cmdStreamBulk(args []string) int {
 				bs, _ = json.Marshal(ev)
 				w.Write(append(bs, '\n'))
 			}
+			if withFault {
+				// a compaction whose scan meets a transient iterator error starts its partition over (having deleted part of
+				// it): 100 keys get a second version, 100 are deleted, the scan fails once in the middle
+				for k := 1; k <= 200 && okAll; k++ {
+					key := env.Keys.Raw(k)
+					g, gerr := env.B.Get(ctx, &proto.GetRequest{Key: key})
+					if gerr != nil || g.Kv == nil {
+						okAll = false
+						break
+					}
+					if k <= 100 {
+						u, uerr := env.B.Update(ctx, &proto.UpdateRequest{Kv: &proto.KeyValue{Key: key, Value: []byte("new"), Revision: g.Kv.Revision}})
+						okAll = okAll && uerr == nil && u.Succeeded
+					} else {
+						d, derr := env.B.Delete(ctx, &proto.DeleteRequest{Key: key, Revision: g.Kv.Revision})
+						okAll = okAll && derr == nil && d.Succeeded
+					}
+				}
+				env.WaitCommitted(100+uint64(n)+2+200, 5*time.Second)
+				fired := false
+				var fmu sync.Mutex
+				env.Store.IterFault = func(proc string, iter, nth int) error {
+					fmu.Lock()
+					defer fmu.Unlock()
+					if nth == 1200 && !fired {
+						fired = true
+						return errors.New("injected transient iterator error")
+					}
+					return nil
+				}
+				_, cerr := env.B.Compact(ctx, env.B.GetCurrentRevision())
+				env.Store.IterFault = nil
+				pfx := []byte(env.Prefix + "/")
+				lr, lerr := env.B.List(ctx, &proto.RangeRequest{Key: pfx, End: backend.PrefixEnd(pfx)})
+				e := ""
+				m, d, f := 0, 0, 0
+				got := 0
+				if lerr != nil {
+					e = "err"
+				} else {
+					seen := map[int]int{}
+					for _, kv := range lr.Kvs {
+						k := env.Keys.Num(kv.Key)
+						seen[k]++
+						want := "v"
+						if k <= 100 {
+							want = "new"
+						} else if k == first {
+							want = "v3"
+						}
+						if string(kv.Value) != want {
+							m++ // the wrong version counts as the right one missing
+						}
+					}
+					got = len(lr.Kvs)
+					for k := 1; k <= n; k++ {
+						c := seen[k]
+						switch {
+						case k > 100 && k <= 200:
+							if c > 0 {
+								f++ // a deleted key is back
+							}
+						case c == 0:
+							m++
+						case c > 1:
+							d += c - 1
+						}
+					}
+				}
+				ev := gate.Event{"e": "BulkStream", "engine": en, "n": n - 100, "first_partition": first, "how": "list-after-faulty-compaction", "iter_fault": false,
+					"setup_ok": okAll && cerr == nil && fired, "streamed": got, "missing": m, "dups": d, "foreign": f, "terms": 1, "err": e, "pieces": 1}
+				bs, _ := json.Marshal(ev)
+				w.Write(append(bs, '\n'))
+			}
 			env.Retire()
 			runs++
 		}
